@@ -269,7 +269,7 @@ func C11(c *vlib.Ctx) {
 	c.Assume("lower-case scheme spelling and a valid token in a second header value are treated as ambiguous (either answer accepted); whitespace-only variations of a valid header are not generated")
 	dir := c.Scratch()
 	c11BlankSources(c, dir)
-	nCfg := c.N(36, 1200)
+	nCfg := c.N(36, 5000)
 	authorizedSeen := 0
 	for ci := 0; ci < nCfg; ci++ {
 		r := vlib.Derive(c.Seed, "C11", ci)
